@@ -129,8 +129,16 @@ fn gen_tree(rng: &mut Rng) -> Tree {
 		}
 	}
 	let explicit_ignores = (0..rng.usize(3)).map(|i| (format!("explicit-{i}.ignore"), gen_lines(rng))).collect();
-	let explicit_watches = if rng.chance(1, 3) && !dirs.is_empty() {
-		(0..(1 + rng.usize(2))).map(|_| rng.pick(&dirs).clone()).collect()
+	// explicit watch list: directories of the tree, and / or paths outside the origin (written with a leading '/', taken
+	// relative to the scenario's sandbox: a prefix-named sibling of the origin, an unrelated tree, the origin's parent,
+	// the origin itself) — possibly nothing but unrelated ones
+	let outside = ["/o-docs", "/elsewhere/x", "/ox", "/", "/o"];
+	let explicit_watches: Vec<String> = if rng.chance(1, 3) && !dirs.is_empty() {
+		(0..(1 + rng.usize(2)))
+			.map(|_| if rng.chance(1, 4) { rng.pick(&outside).to_string() } else { rng.pick(&dirs).clone() })
+			.collect()
+	} else if rng.chance(1, 8) {
+		(0..(1 + rng.usize(2))).map(|_| rng.pick(&outside[..3]).to_string()).collect()
 	} else {
 		vec![]
 	};
@@ -216,11 +224,12 @@ fn expected(root: &Path, origin: &Path, t: &Tree, vcs_deep: bool) -> Found {
 			if oracle1(&sc, &rel, true) == Verdict::Ignore {
 				continue;
 			}
-			if !t.explicit_watches.is_empty() {
-				let related = t.explicit_watches.iter().any(|w| rel == *w || rel.starts_with(&format!("{w}/")) || w.starts_with(&format!("{rel}/")));
-				if !related {
-					continue;
-				}
+		}
+		// with an explicit watch list only directories below or above a watched path are visited (the origin included)
+		if !t.explicit_watches.is_empty() {
+			let related = t.explicit_watches.iter().map(|w| watch_path(origin, w)).any(|w| dir.starts_with(&w) || w.starts_with(&dir));
+			if !related {
+				continue;
 			}
 		}
 		for (name, ty) in [(".ignore", None), (".gitignore", Some("Git")), (".hgignore", Some("Mercurial"))] {
@@ -241,10 +250,19 @@ fn expected(root: &Path, origin: &Path, t: &Tree, vcs_deep: bool) -> Found {
 	out
 }
 
+/// A watch-list entry: relative to the origin, or (leading '/') relative to the sandbox that contains the origin.
+fn watch_path(origin: &Path, w: &str) -> PathBuf {
+	match w.strip_prefix('/') {
+		Some("") => origin.parent().unwrap().to_path_buf(),
+		Some(outside) => origin.parent().unwrap().join(outside),
+		None => origin.join(w),
+	}
+}
+
 async fn discover(root: &Path, origin: &Path, t: &Tree) -> (Found, Vec<String>) {
 	let args = IgnoreFilesFromOriginArgs::new(
 		origin,
-		t.explicit_watches.iter().map(|w| origin.join(w)).collect(),
+		t.explicit_watches.iter().map(|w| watch_path(origin, w)).collect(),
 		t.explicit_ignores.iter().map(|(n, _)| root.join("explicit").join(n)).collect(),
 	)
 	.expect("well-formed args");
